@@ -34,6 +34,8 @@ func mutexOf(recv string, file string) string {
 	switch {
 	case strings.HasSuffix(recv, "gb.mu") || recv == "gb.mu":
 		return "gb.mu"
+	case strings.HasSuffix(recv, "gb.pickMu"):
+		return "gb.pickMu"
 	case recv == "p.mu":
 		return "picker.mu"
 	case strings.HasSuffix(recv, "ef.mu") || recv == "ref.mu": // scRef.mu, ref.mu
@@ -593,7 +595,7 @@ func extractLocks(repo string, o *out) {
 		}
 	}
 	// must-hold at function entry: meet over all call sites (entry points start empty)
-	all := lockset{"gb.mu": 'W', "picker.mu": 'W', "ref.mu": 'W', "gme.mu": 'W', "me.mu": 'W', "cs.mu": 'W'}
+	all := lockset{"gb.mu": 'W', "gb.pickMu": 'W', "picker.mu": 'W', "ref.mu": 'W', "gme.mu": 'W', "me.mu": 'W', "cs.mu": 'W'}
 	entryLocks := map[string]lockset{}
 	for n, f := range fns {
 		if f.entry {
@@ -994,23 +996,40 @@ func extractLocks(repo string, o *out) {
 		o.lines = append(o.lines, fmt.Sprintf("def detectorRefreshesUnvalidated : Nat := %d", plain))
 		o.lines = append(o.lines, fmt.Sprintf("def balancerCallbacksHoldLock : Bool := %v", ok))
 	}
-	// round-robin cursor (C09): rrRefId is advanced only by `atomic.AddUint32(&….rrRefId, 1)`
+	// round-robin cursor (C09): rrRefId is advanced only by `atomic.AddUint<bits>(&….rrRefId, 1)`, <bits> being
+	// the width of the field's declared type; the index is the result reduced modulo the list length in the same width
 	{
 		af := parse(filepath.Join(repo, "grpcgcp/gcp_balancer.go"))
 		adds, others := 0, 0
+		bits, addBits, modBits := 0, 0, 0
+		widthOf := map[string]int{"uint32": 32, "uint64": 64}
 		mentions := func(e ast.Expr) bool { return strings.Contains(exprString(e), "rrRefId") }
 		ast.Inspect(af, func(n ast.Node) bool {
 			switch x := n.(type) {
+			case *ast.Field:
+				for _, nm := range x.Names {
+					if nm.Name == "rrRefId" {
+						bits = widthOf[exprString(x.Type)]
+					}
+				}
+			case *ast.BinaryExpr:
+				// atomic.AddUintN(&gb.rrRefId, 1) % uintN(len(…))
+				if x.Op.String() == "%" && mentions(x.X) {
+					if ce, ok := x.Y.(*ast.CallExpr); ok {
+						modBits = widthOf[exprString(ce.Fun)]
+					}
+				}
 			case *ast.CallExpr:
 				if se, ok := x.Fun.(*ast.SelectorExpr); ok && rootIdent(se.X) == "atomic" && len(x.Args) > 0 && mentions(x.Args[0]) {
 					switch se.Sel.Name {
-					case "AddUint32":
+					case "AddUint32", "AddUint64":
 						if len(x.Args) == 2 && exprString(x.Args[1]) == "1" {
 							adds++
+							addBits = widthOf["uint"+strings.TrimPrefix(se.Sel.Name, "AddUint")]
 						} else {
 							others++
 						}
-					case "LoadUint32":
+					case "LoadUint32", "LoadUint64":
 					default:
 						others++
 					}
@@ -1030,6 +1049,9 @@ func extractLocks(repo string, o *out) {
 		})
 		o.lines = append(o.lines, fmt.Sprintf("def rrCursorAtomicAdds : Nat := %d", adds))
 		o.lines = append(o.lines, fmt.Sprintf("def rrCursorOtherWrites : Nat := %d", others))
+		o.lines = append(o.lines, fmt.Sprintf("def rrCursorBits : Nat := %d", bits))
+		o.lines = append(o.lines, fmt.Sprintf("def rrCursorAddBits : Nat := %d", addBits))
+		o.lines = append(o.lines, fmt.Sprintf("def rrCursorModBits : Nat := %d", modBits))
 	}
 	o.extraFiles = map[string]string{"Accesses.lean": "/- GENERATED by tools/extract (locks.go) from /repo's working tree on every run. Do not edit. -/\nimport GcpVerif.Model.Sync\nnamespace GcpVerif.Generated\nopen GcpVerif.Sync\n\ndef accesses : List Access := [\n" +
 		strings.Join(uniq, ",\n") + "\n]\n\ndef acquisitions : List Acquisition := [\n" + strings.Join(acqLines, ",\n") + "\n]\n\nend GcpVerif.Generated\n"}
